@@ -340,7 +340,14 @@ static void op_run(void) {
     if (!d2) d2 = mj_makeData(m);
     for (int i = 0; i < m->nq; i++) d2->qpos[i] = m->qpos0[i];
     for (int i = 0; i < m->nv; i++) d2->qvel[i] = 0.1 * (i + 1);
-    for (int s = 0; s < 3; s++) mj_step(m, d2);
+    {
+      // islands off while making history: an explicit pair between two static geoms yields a contact that mj_island rejects
+      // with mju_error (outside this property); the history only has to dirty arena / stack / warm-start state
+      int saved = m->opt.disableflags;
+      ((mjModel*)m)->opt.disableflags |= mjDSBL_ISLAND;
+      for (int s = 0; s < 3; s++) mj_step(m, d2);
+      ((mjModel*)m)->opt.disableflags = saved;
+    }
     memcpy(d2->qpos, d->qpos, sizeof(mjtNum) * m->nq);
     memcpy(d2->mocap_pos, d->mocap_pos, sizeof(mjtNum) * 3 * m->nmocap);
     memcpy(d2->mocap_quat, d->mocap_quat, sizeof(mjtNum) * 4 * m->nmocap);
@@ -401,6 +408,8 @@ int main(void) {
         printf("ok %d %d %d %d %d %d\n", m->nbody, m->ngeom, m->nq, m->nmocap, m->npair, m->nexclude);
       }
     }
+    else if (strcmp(tok[0], "qpos") && strcmp(tok[0], "mocap_pos") && strcmp(tok[0], "mocap_quat") && strcmp(tok[0], "flags") &&
+             strcmp(tok[0], "omargin") && strcmp(tok[0], "run")) printf("bad-op\n");
     else if (!m) printf("error no model\n");
     else if (!strcmp(tok[0], "qpos")) {
       if (n - 1 != m->nq) printf("error qpos size %d != %d\n", n - 1, m->nq);
